@@ -8,7 +8,9 @@ import (
 	"path/filepath"
 	"runtime"
 	"sort"
+	"strconv"
 	"strings"
+	"sync/atomic"
 	"testing"
 	"time"
 
@@ -339,7 +341,14 @@ func runCrash(p *Plan, tree *refTree, res *simcore.Result) {
 	applied := 0
 	stats := map[string]int{}
 	fp := simcore.NewHash()
-	for _, c := range cuts {
+	for ci, c := range cuts {
+		if !hint && overBudget() {
+			// the batch's wall-clock budget is used up: stop exploring this run's cuts (coverage
+			// only; verdicts and replays do not depend on it)
+			res.Probe("cuts-dropped-batch-budget-exhausted")
+			cuts = cuts[:ci]
+			break
+		}
 		for applied < len(h.events) && h.events[applied].Seq <= c {
 			model.Apply(&h.events[applied])
 			applied++
@@ -372,7 +381,14 @@ func runCrash(p *Plan, tree *refTree, res *simcore.Result) {
 			img := model.CrashImage(mode, dr, stats)
 			res.Reboots++
 			rb := &rebooter{p: p, kn: h.knobsAt(p.Knobs, c), tree: tree, h: h, res: res, engine: engine, cut: c, draw: d, lost: lost}
-			if p.Nested > 0 && (p.MaxCuts == 0 || dr.Bool(0.5) || hint) {
+			// recorded restarts (second crashes): half of the sampled images in quick, one in six
+			// when every cut is taken (a thorough run has 10^3 images; 4+ more reboots for each
+			// would make single runs last longer than the batch)
+			nestP := 0.5
+			if p.MaxCuts == 0 {
+				nestP = 0.17
+			}
+			if p.Nested > 0 && (dr.Bool(nestP) || hint) {
 				rb.nest = &nestRec{}
 			}
 			v := rb.run(model, img, mem)
@@ -431,6 +447,20 @@ func runCrash(p *Plan, tree *refTree, res *simcore.Result) {
 	res.StateFP = uint64(fp.U64(h.endSeq))
 	res.LogHash = h.logHash // the twin's event log; reboot outcomes are in StateFP (cuts fall on the actual, not the canonicalised, order)
 }
+
+// budgetGone is set by a real timer (created at package initialisation, outside any synctest
+// bubble, whose clock is virtual) once the worker process has been running for 1.25x the
+// batch budget; the driver kills workers at 1.6x + 180 s, which would turn one long run into
+// a harness error.
+var budgetGone atomic.Bool
+
+func init() {
+	if n, _ := strconv.Atoi(os.Getenv("VERIF_BUDGET_S")); n > 0 {
+		time.AfterFunc(time.Duration(n)*time.Second*5/4, func() { budgetGone.Store(true) })
+	}
+}
+
+func overBudget() bool { return budgetGone.Load() }
 
 type rebooter struct {
 	p       *Plan
